@@ -321,7 +321,7 @@ func main() {
 	}
 	accEvery, rejEvery, perShard, ccShard, codecBudget := 2*scale, 12*scale, 400, 1200, 26000
 	if a.Tier == "thorough" {
-		perShard, ccShard, codecBudget = 4000, 2500, 45000
+		perShard, ccShard, codecBudget = 2500, 2500, 45000
 	}
 	sparseFrom := 1 << 30 // inputs from this index on reach the model 1 in 10 (thorough: the 12-letter alphabet space)
 	cs := hx.NewCases(a.Out, "From V.C08 Require Import Model Harness.\nFrom V.Base Require Import Hex.", "string * dobs * sobs * cobs", "check", perShard)
@@ -570,7 +570,14 @@ func main() {
 		} else {
 			cob = fmt.Sprintf("COk %d", cnt)
 		}
-		if len(b) <= 3000 && (idx < sparseFrom || idx%10 == 0) { // larger inputs are checked on the implementation only
+		// the model sees: quick = every input up to 3 kB; thorough = the first 1500 likewise, then every second
+		// input of up to 120 bytes, all strings of length <= 2 and every 10th of the alphabet space (shards
+		// must stay below ~0.5 MB: parsing cost and memory of coqc grow with the literal text)
+		toModel := len(b) <= 3000
+		if a.Tier == "thorough" && idx >= 1500 {
+			toModel = len(b) <= 120 && ((idx < sparseFrom && (len(b) <= 2 || idx%2 == 0)) || idx%10 == 0)
+		}
+		if toModel {
 			cs.Add(fmt.Sprintf("(%s, %s, %s, %s)", hx.CoqHex(b), dob, sob, cob), map[string]string{"input": hex.EncodeToString(b), "dec": dob, "split": sob, "count": cob})
 		}
 		nontrivial := len(b) > 0 && !(err != nil && len(b) >= 1 && errCode(err) != 6 && len(b) == 1)
@@ -607,7 +614,7 @@ func main() {
 					}
 					cc.Add(fmt.Sprintf("CDec %s %s (%s)", gt.name(reflect.TypeOf(tv).Elem()), hx.CoqHex(b), obs), map[string]string{"type": z.name, "input": hex.EncodeToString(b), "impl": obs})
 					// the older item-tree model of the typed layer (Typed.v) on a sample
-					if tyd, ok := zooTy[z.name]; ok && h%(6*accEvery) == 0 && ts.Total() < codecBudget/4 {
+					if tyd, ok := zooTy[z.name]; ok && h%(6*accEvery) == 0 && ts.Total() < codecBudget/8 {
 						ts.Add(fmt.Sprintf("(%s, %s, %s)", tyd, hx.CoqHex(b), obs), map[string]string{"type": z.name, "input": hex.EncodeToString(b), "impl": obs})
 					}
 				}
